@@ -286,6 +286,10 @@ func orchestrate() int {
 		fmt.Printf("KNOWN-FINDING: property=%s %s\n", prop, known[k].What)
 	}
 	code := 0
+	if dump := os.Getenv("VERIF_DUMP_VIOLATIONS"); dump != "" { // development aid: candidate list for review, never read back
+		b, _ := json.MarshalIndent(fresh, "", " ")
+		os.WriteFile(dump, b, 0o644)
+	}
 	if len(fresh) > 0 {
 		kinds := map[string]int{}
 		for _, v := range fresh {
